@@ -175,6 +175,8 @@ long summary() {
     return s;
 }
 
+void check_final(bool d9, long base);
+
 void run_history(bool d9) {
     vf_warmup();
     Ctx cx; G = &cx; cx.d9 = d9;
@@ -209,6 +211,14 @@ void run_history(bool d9) {
         vf_out(summary());
     }
     if (cx.pool) do_destroy();
+    check_final(d9, base);
+    vf_choice_end();
+    vf_witness();
+}
+
+void check_final(bool d9, long base) {
+    Ctx &cx = *G;
+    const int n = cx.nthreads;
     check_running();
     vf_out(summary());
     for (int i = 1; i <= n; i++)
@@ -263,6 +273,43 @@ void run_history(bool d9) {
         }
     }
     VF_ASSERT(vf_live_allocs() == base, "C11 nothing leaked (closures, coroutine frames, thread start states, workers' thread-local queues)");
+}
+
+// A submission from one thread against stop() from another: the complete stop() is injected in front of the k-th mutex acquisition of the
+// submission (vf_inject_arm; every access of enqueue()/stop() to the pool's state is made under its mutex), or happens after it.
+// Whatever the order, once stop() has returned the job has run or has been cancelled - it is not left in the queue of a pool without workers.
+void injected_stop() { do_stop(); }
+void stop_race() {
+    vf_warmup();
+    Ctx cx; G = &cx;
+    const int n = 1 + vf_choice(2);
+    vf_cond_pick(0);
+    const int parked = vf_choice(2);         // 0: the workers have not run yet, 1: every worker is parked in its wait
+    const int kind = vf_choice(3);           // co_await pool | run(fn) | run_detached(fn)
+    const int k = 1 + vf_choice(3);
+    const int drain = vf_choice(2);
+    const long base = vf_live_allocs();
+    cx.nthreads = n;
+    cx.pool = new thread_pool(n);
+    if (parked) for (int i = 1; i <= n; i++) vf_thread_run(i);
+    vf_inject_arm(&injected_stop, k);
+    submit(kind, I_NONE);
+    if (vf_inject_pending()) { vf_inject_disarm(); do_stop(); }
+    check_running();
+    check_settled();
+    vf_out(summary());
+    if (drain) {
+        for (int t = 0; t < 6; t++) {
+            int r = 0;
+            for (int i = 1; i <= n; i++) if (!r && vf_thread_runnable(i)) r = i;
+            if (!r) break;
+            vf_thread_run(r);
+        }
+        check_running();
+        check_settled();
+    }
+    do_destroy();
+    check_final(false, base);
     vf_choice_end();
     vf_witness();
 }
@@ -270,3 +317,4 @@ void run_history(bool d9) {
 
 extern "C" void h_pool() { run_history(false); }
 extern "C" void h_raw_cancel() { run_history(true); }
+extern "C" void h_stop_race() { stop_race(); }
